@@ -30,6 +30,7 @@
 #include <stdio.h>
 #include <ctype.h>
 #include <iostream>
+#include <vector>
 
 #include "soplex/spxdefines.h"
 #include "soplex/spxout.h"
@@ -519,7 +520,6 @@ static R LPFreadValue(char*& pos, SPxOut* spxout)
 {
    assert(LPFisValue(pos));
 
-   char        tmp[SOPLEX_LPF_MAX_LINE_LEN];
    const char* s = pos;
    char*       t;
    R        value = 1.0;
@@ -581,11 +581,14 @@ static R LPFreadValue(char*& pos, SPxOut* spxout)
       value = (*pos == '-') ? -1.0 : 1.0;
    else
    {
-      for(t = tmp; pos != s; pos++)
+      // the token can be longer than any fixed-size buffer: the line buffer grows as needed
+      std::vector<char> tmp(size_t(s - pos) + 1);
+
+      for(t = tmp.data(); pos != s; pos++)
          *t++ = *pos;
 
       *t = '\0';
-      value = atof(tmp);
+      value = atof(tmp.data());
    }
 
    pos += s - pos;
@@ -614,7 +617,6 @@ static int LPFreadColName(char*& pos, NameSet* colnames, LPColSetBase<R>& colset
    assert(LPFisColName(pos));
    assert(colnames != nullptr);
 
-   char        name[SOPLEX_LPF_MAX_LINE_LEN];
    const char* s = pos;
    int         i;
    int         colidx;
@@ -622,6 +624,10 @@ static int LPFreadColName(char*& pos, NameSet* colnames, LPColSetBase<R>& colset
    // These are the characters that are not allowed in a column name.
    while((strchr("+-.<>= ", *s) == nullptr) && (*s != '\0'))
       s++;
+
+   // the name can be longer than any fixed-size buffer: the line buffer grows as needed
+   std::vector<char> namebuf(size_t(s - pos) + 1);
+   char* name = namebuf.data();
 
    for(i = 0; pos != s; i++, pos++)
       name[i] = *pos;
@@ -757,7 +763,9 @@ static inline bool LPFhasRowName(char*& pos, NameSet* rownames)
 
    assert(srt <= end && pos[srt] != ' ');
 
-   char name[SOPLEX_LPF_MAX_LINE_LEN];
+   // the name can be longer than any fixed-size buffer: the line buffer grows as needed
+   std::vector<char> namebuf(size_t(end - srt) + 2);
+   char* name = namebuf.data();
    int i;
    int k = 0;
 
